@@ -76,4 +76,25 @@ def semVerdict (sp : Spec) (orc : String → Bool) : St :=
 /-- the observable outcome of an engine world: workflow state and the rows as triples -/
 def rowTriple (r : TaskRow) : SRow := (r.name, r.state, r.nextTasks)
 
+/-! ### the histories the refinement theorem quantifies over -/
+
+/-- a plain event: not a `stop`, not the loss of an action at its executor (C20), and an executor
+    result that is the oracle's -/
+def plainB (orc : String → Bool) : Event → Bool
+  | .stop _ => false
+  | .deliver (.runAction _) => false
+  | .execute t ok => ok == orc t.1
+  | _ => true
+
+/-- the event is a STALE RE-START: the delivery of a pending `start_task(first_run=False)` request
+    (queued by `resume` for a task that was still IDLE) to a task that has meanwhile FAILED:
+    `RegularTask._run_existing` runs the failed task again -/
+def staleB (w : World) : Event → Bool
+  | .deliver (.rpcStartTask t false) =>
+    w.pending.contains (.rpcStartTask t false) &&
+      (match findTask w t with
+       | some r => r.state == .ERROR
+       | none => false)
+  | _ => false
+
 end Mistral.Sem
